@@ -82,17 +82,17 @@ impl<'r> Series<'r> {
                 ))));
             }
 
-            (Number::Count(1), format::Type::Integer, Type::Int8(len)) => {
-                get_i8_value(self.src, len, i)
+            (Number::Count(1), format::Type::Integer, Type::Int8(1)) => {
+                return get_i8_value(self.src, i);
             }
-            (Number::Count(1), format::Type::Integer, Type::Int16(len)) => {
-                get_i16_value(self.src, len, i)
+            (Number::Count(1), format::Type::Integer, Type::Int16(1)) => {
+                return get_i16_value(self.src, i);
             }
-            (Number::Count(1), format::Type::Integer, Type::Int32(len)) => {
-                get_i32_value(self.src, len, i)
+            (Number::Count(1), format::Type::Integer, Type::Int32(1)) => {
+                return get_i32_value(self.src, i);
             }
-            (Number::Count(1), format::Type::Float, Type::Float(len)) => {
-                get_f32_value(self.src, len, i)
+            (Number::Count(1), format::Type::Float, Type::Float(1)) => {
+                return get_f32_value(self.src, i);
             }
             (Number::Count(1), format::Type::Character, Type::String(len)) => {
                 get_char_value(self.src, len, i)
@@ -204,15 +204,17 @@ fn range<N>(i: usize, len: usize) -> Range<usize> {
     start..end
 }
 
-fn get_i8_value(src: &[u8], len: usize, i: usize) -> Option<Option<Value<'_>>> {
+fn get_i8_value(src: &[u8], i: usize) -> Option<Option<io::Result<Value<'_>>>> {
     use crate::record::codec::value::Int8;
 
-    let src = src.get(range::<i8>(i, len))?;
+    let src = src.get(range::<i8>(i, 1))?;
 
     let value = match Int8::from(src[0] as i8) {
-        Int8::Value(n) => Some(Value::Integer(i32::from(n))),
+        Int8::Value(n) => Some(Ok(Value::Integer(i32::from(n)))),
         Int8::Missing => None,
-        Int8::EndOfVector | Int8::Reserved(_) => todo!(),
+        Int8::EndOfVector | Int8::Reserved(_) => {
+            Some(Err(io::Error::from(io::ErrorKind::InvalidData)))
+        }
     };
 
     Some(value)
@@ -224,16 +226,18 @@ fn get_i8_array_value(src: &[u8], len: usize, i: usize) -> Option<Option<Value<'
     Some(Some(Value::Array(Array::Integer(Box::new(values)))))
 }
 
-fn get_i16_value(src: &[u8], len: usize, i: usize) -> Option<Option<Value<'_>>> {
+fn get_i16_value(src: &[u8], i: usize) -> Option<Option<io::Result<Value<'_>>>> {
     use crate::record::codec::value::Int16;
 
-    let src = src.get(range::<i16>(i, len))?;
+    let src = src.get(range::<i16>(i, 1))?;
 
     // SAFETY: `src` is 2 bytes.
     let value = match Int16::from(i16::from_le_bytes(src.try_into().unwrap())) {
-        Int16::Value(n) => Some(Value::Integer(i32::from(n))),
+        Int16::Value(n) => Some(Ok(Value::Integer(i32::from(n)))),
         Int16::Missing => None,
-        Int16::EndOfVector | Int16::Reserved(_) => todo!(),
+        Int16::EndOfVector | Int16::Reserved(_) => {
+            Some(Err(io::Error::from(io::ErrorKind::InvalidData)))
+        }
     };
 
     Some(value)
@@ -245,16 +249,18 @@ fn get_i16_array_value(src: &[u8], len: usize, i: usize) -> Option<Option<Value<
     Some(Some(Value::Array(Array::Integer(Box::new(values)))))
 }
 
-fn get_i32_value(src: &[u8], len: usize, i: usize) -> Option<Option<Value<'_>>> {
+fn get_i32_value(src: &[u8], i: usize) -> Option<Option<io::Result<Value<'_>>>> {
     use crate::record::codec::value::Int32;
 
-    let src = src.get(range::<i32>(i, len))?;
+    let src = src.get(range::<i32>(i, 1))?;
 
     // SAFETY: `src` is 2 bytes.
     let value = match Int32::from(i32::from_le_bytes(src.try_into().unwrap())) {
-        Int32::Value(n) => Some(Value::Integer(n)),
+        Int32::Value(n) => Some(Ok(Value::Integer(n))),
         Int32::Missing => None,
-        Int32::EndOfVector | Int32::Reserved(_) => todo!(),
+        Int32::EndOfVector | Int32::Reserved(_) => {
+            Some(Err(io::Error::from(io::ErrorKind::InvalidData)))
+        }
     };
 
     Some(value)
@@ -266,16 +272,18 @@ fn get_i32_array_value(src: &[u8], len: usize, i: usize) -> Option<Option<Value<
     Some(Some(Value::Array(Array::Integer(Box::new(values)))))
 }
 
-fn get_f32_value(src: &[u8], len: usize, i: usize) -> Option<Option<Value<'_>>> {
+fn get_f32_value(src: &[u8], i: usize) -> Option<Option<io::Result<Value<'_>>>> {
     use crate::record::codec::value::Float;
 
-    let src = src.get(range::<f32>(i, len))?;
+    let src = src.get(range::<f32>(i, 1))?;
 
     // SAFETY: `src` is 2 bytes.
     let value = match Float::from(f32::from_le_bytes(src.try_into().unwrap())) {
-        Float::Value(n) => Some(Value::Float(n)),
+        Float::Value(n) => Some(Ok(Value::Float(n))),
         Float::Missing => None,
-        Float::EndOfVector | Float::Reserved(_) => todo!(),
+        Float::EndOfVector | Float::Reserved(_) => {
+            Some(Err(io::Error::from(io::ErrorKind::InvalidData)))
+        }
     };
 
     Some(value)
